@@ -63,7 +63,8 @@ pub fn exchange(rng: &mut Rng, r: &Req, glue: bool) -> Vec<String> {
     steps
 }
 
-fn finish_case(out: &mut Out, n: usize, steps: Vec<String>, class: &str) {
+fn finish_case(out: &mut Out, n: usize, steps: Vec<String>, class: &str) { finish_case_warm(out, &n.to_string(), steps, class) }
+fn finish_case_warm(out: &mut Out, n: &str, steps: Vec<String>, class: &str) {
     let case = format!("N={};{}", n, steps.join(";"));
     let r = run(&case);
     let answered = r.split(|c| c == ';' || c == '|').filter(|e| e.len() > 3 && e.as_bytes()[3] == b',').count();
@@ -134,6 +135,24 @@ pub fn gen10(ctx: &Ctx) {
                 steps.push("R".into());
                 steps.extend(exchange(&mut rng, &probe(), false));
                 finish_case(&mut out, n, steps, &format!("other-target-form/len-N={}", head.len() as i64 - n as i64));
+            }
+        }
+    }
+    // history on the serving thread: the same thread has served another connection before, with a larger head limit (plain
+    // exchange) or with an answer that could not be written (peer reset): the limit of THIS server applies all the same and
+    // its 431 is the first thing on the wire (seeds C03-i: a request buffer that only grows; C10-i / C08-i: a per-thread head
+    // buffer that keeps an undeliverable reply)
+    for &n in &[64usize, 256] {
+        for warm in ["o16384", "r4096", "o100"] {
+            for l in [n - 2, n, n + 1, n + 40] {
+                let mut r = Req { method: "GET", path: "/".into(), fields: vec![], body: vec![] };
+                r.fields.insert(0, ("x".into(), vec![b'p'; l - 18 - 5]));
+                for style in [0u64, 3] {
+                    let mut steps: Vec<String> = cut(&mut rng, &r.head(), style).iter().map(|s| format!("D{}", hex(s))).collect();
+                    steps.push("R".into());
+                    steps.extend(exchange(&mut rng, &probe(), false));
+                    finish_case_warm(&mut out, &format!("{n},W{warm}"), steps, &format!("thread-history/{}/len-N={}", &warm[..1], l as i64 - n as i64));
+                }
             }
         }
     }
@@ -406,6 +425,25 @@ pub fn gen_segpair(ctx: &Ctx) {
         let case = scripts.join("#");
         let res = run_segpair(&case);
         out.emit(&case, &res, &format!("first={path}"), true);
+    }
+    // a head longer than the limit, on a thread that has served a connection under a larger limit before: whether it arrives
+    // in one segment (jumping over the limit) or in pieces that land on it, the answer is the same (seed C03-i)
+    for (n, hl) in [(256usize, 320usize), (256, 257), (64, 100), (1000, 1300)] {
+        let mut r = Req { method: "GET", path: "/none".into(), fields: vec![], body: vec![] };
+        let base = r.head().len();
+        r.fields.insert(0, ("x".into(), vec![b'p'; hl - base - 5]));
+        let head = r.head();
+        let tail = exchange(&mut rng, &probe(), false);
+        let segs: Vec<Vec<Vec<u8>>> = vec![vec![head.clone()], head.chunks(32).map(|c| c.to_vec()).collect(), vec![head[..n].to_vec(), head[n..].to_vec()], vec![head[..n - 1].to_vec(), head[n - 1..].to_vec()], cut(&mut rng, &head, 1)];
+        let scripts: Vec<String> = segs.iter().map(|sg| {
+            let mut steps: Vec<String> = sg.iter().filter(|x| !x.is_empty()).map(|x| format!("D{}", hex(x))).collect();
+            steps.push("R".into());
+            steps.extend(tail.clone());
+            format!("N={n},Wo16384;{}", steps.join(";"))
+        }).collect();
+        let case = scripts.join("#");
+        let res = run_segpair(&case);
+        out.emit(&case, &res, "over-limit-after-larger-limit", true);
     }
     out.finish();
 }
